@@ -1781,7 +1781,9 @@ Definition i_45 (opc ip0 ip : N) (s : state) : sres := (* RegisterUpvalue *)
                     (* the captured local lives in the frame of the function that creates the closure
                        (the pinned tree indexed the stack absolutely, A-34) *)
                     let loc := off + N.to_nat index in
-                    if scount s1 <=? loc then SStop APanic s1      (* as_slice()[offset + index] *)
+                    (* as_slice().get(offset + index): a local without a slot yet is an error (a56dd03; it
+                       was an index-out-of-bounds panic) *)
+                    if scount s1 <=? loc then SErr EInvalidArgument ip s1
                     else
                       match walk_open (S (length (st_heap s1))) (st_heap s1) loc None (st_open s1) with
                       | WStop a => SStop a s1
